@@ -271,7 +271,7 @@ func buildTools(r *lib.Rng, z *zoo) (*object, error) {
 		paras = allParas
 	}
 	sharedTn := []compose.ToolsNodeOption{compose.WithToolOption(tool.WrapImplSpecificOptFn(func(o *topt) { o.Val += "S" }))}
-	sharedC := []compose.Option{compose.WithToolsNodeOption(sharedTn...), compose.WithCallbacks(sharedHandler("so"))}
+	sharedC := []compose.Option{compose.WithToolsNodeOption(sharedTn...), sharedCb("so")}
 	d := &dGraph{}
 	d.node("tn", "(FTools "+lib.CoqStrList(strs("echo", "sp", "rd"))+" true)", 2)
 	d.edge(compose.START, "tn")
@@ -467,7 +467,7 @@ func sharedAgentOpts() []agent.AgentOption {
 		compose.WithToolsNodeOption(compose.WithToolOption(tool.WrapImplSpecificOptFn(func(o *topt) { o.Val += "S" }))))
 	return []agent.AgentOption{
 		agent.WithComposeOptions(co...),
-		agent.WithComposeOptions(compose.WithCallbacks(sharedHandler("so")), compose.WithCallbacks(agentCallback(nil, "sag"))),
+		agent.WithComposeOptions(sharedCb("so"), compose.WithCallbacks(agentCallback(nil, "sag"))),
 	}
 }
 
